@@ -742,3 +742,195 @@ Proof.
     + apply sim_unknown; [exact HR|]. destruct p as [id|k]; simpl in Hp; subst po; [|reflexivity].
       apply (known_false_non st s n id HR (cls_not_cached n Hc)). apply unlink_none. exact U.
 Qed.
+
+(* ---------------------------------------------------------------- clearCache / clearAll *)
+Lemma clear_nodes_spec : forall f c,
+  clear_nodes f c = (map (fun nd => fst (f nd)) c, flat_map (fun nd => snd (f nd)) c).
+Proof.
+  intros f. induction c as [|nd r IH]; [reflexivity|]. simpl. rewrite IH. destruct (f nd). reflexivity.
+Qed.
+
+Lemma apply_destroy_nodes : forall (gone : node -> list block) c caller prot sizes freed,
+  (forall nd b, In nd c -> In b (gone nd) -> szof sizes (b_hdr b) = Some block_hdr_size /\ szof sizes (b_mem b) = Some (n_size nd)) ->
+  (forall id, (cnt (flat_map (fun nd => bids (gone nd)) c) id <= 1)%nat) ->
+  (forall id, In id (flat_map (fun nd => bids (gone nd)) c) -> ~ In id freed /\ ~ In id prot) ->
+  exists freed', apply_evs caller prot (sizes, freed) (flat_map (fun nd => destroy_list (n_size nd) (gone nd)) c) = Some (sizes, freed') /\
+                 (forall id, In id freed' <-> In id freed \/ In id (flat_map (fun nd => bids (gone nd)) c)) /\
+                 (NoDup freed -> NoDup freed').
+Proof.
+  intros gone. induction c as [|nd r IH]; intros caller prot sizes freed Hs Hn Hf.
+  - exists freed. simpl. split; [reflexivity|]. split; [intros; tauto | auto].
+  - simpl in *.
+    destruct (apply_destroy_list (gone nd) caller prot sizes freed (n_size nd)) as [f1 [A1 [A2 A3]]].
+    + intros b Hb. destruct (Hs nd b) as [H1 H2]; auto. split; [exact H1|]. exists (n_size nd). split; [exact H2 | apply size_ok_same].
+    + intros id. specialize (Hn id). rewrite cnt_app in Hn. lia.
+    + intros id Hid. apply Hf. apply in_app_iff. left. exact Hid.
+    + destruct (IH caller prot sizes f1) as [f2 [B1 [B2 B3]]].
+      * intros nd2 b H1 H2. apply Hs; auto.
+      * intros id. specialize (Hn id). rewrite cnt_app in Hn. lia.
+      * intros id Hid. destruct (Hf id) as [G1 G2]; [apply in_app_iff; right; exact Hid|]. split; [|exact G2].
+        rewrite A2. intros [K|K]; [tauto|]. specialize (Hn id). rewrite cnt_app in Hn.
+        apply cnt_In in K. apply cnt_In in Hid. lia.
+      * exists f2. split; [rewrite apply_evs_app, A1; exact B1|]. split; [|auto].
+        intros id. rewrite B2, A2, in_app_iff. tauto.
+Qed.
+
+Definition keep_used (nd : node) : node := {| n_size := n_size nd; n_free := []; n_used := n_used nd |}.
+Definition wipe (nd : node) : node := {| n_size := n_size nd; n_free := []; n_used := [] |}.
+Definition free_ids (c : list node) : list N := flat_map (fun nd => bids (n_free nd)) c.
+
+Lemma cnt_keep : forall c id,
+  cnt (flat_map node_ids c) id = (cnt (free_ids c) id + cnt (flat_map node_ids (map keep_used c)) id)%nat.
+Proof.
+  induction c as [|nd r IH]; intros id; [reflexivity|]. unfold free_ids in *. simpl. rewrite !cnt_app, IH.
+  unfold node_ids at 1 3. cbn [keep_used n_free n_used]. rewrite !cnt_app. change (bids []) with (@nil N). rewrite cnt_nil. lia.
+Qed.
+Lemma in_free_ids : forall c id, In id (free_ids c) <-> exists nd b, In nd c /\ In b (n_free nd) /\ (id = b_hdr b \/ id = b_mem b).
+Proof.
+  intros. unfold free_ids. rewrite in_flat_map. split.
+  - intros [nd [H1 H2]]. apply in_bids in H2. destruct H2 as [b [H2 H3]]. exists nd, b. auto.
+  - intros [nd [b [H1 [H2 H3]]]]. exists nd. split; [exact H1|]. apply in_bids. exists b. auto.
+Qed.
+Lemma wipe_no_ids : forall c, flat_map node_ids (map wipe c) = [].
+Proof. induction c as [|nd r IH]; [reflexivity|]. simpl. rewrite IH. reflexivity. Qed.
+
+Lemma clear_cache_eq : forall st,
+  clear_cache st = (with_cache st (map keep_used (s_cache st)),
+                    mk_out (flat_map (fun nd => destroy_list (n_size nd) (n_free nd)) (s_cache st)) None false).
+Proof. intros. unfold clear_cache. rewrite clear_nodes_spec. reflexivity. Qed.
+
+Lemma sim_clear_cache : forall st s, R st s ->
+  exists s', check_clear_cache s (item_of (snd (clear_cache st))) = Some s' /\ R (fst (clear_cache st)) s' /\ a_ptrs s' = a_ptrs s.
+Proof.
+  intros st s HR. rewrite clear_cache_eq. cbn [fst snd].
+  set (c := s_cache st) in *.
+  pose proof (r_nodes _ _ HR) as Fn. rewrite Forall_forall in Fn.
+  assert (Hgone_all : forall id, In id (free_ids c) -> In id (all_ids st)).
+  { intros id H. apply in_free_ids in H. destruct H as [nd [b [H1 [H2 H3]]]]. apply in_all_ids. left. exists nd, b.
+    split; [exact H1|]. split; [apply in_app_iff; left; exact H2 | exact H3]. }
+  assert (Hcnt : forall id, cnt (all_ids st) id = (cnt (free_ids c) id + cnt (all_ids (with_cache st (map keep_used c))) id)%nat).
+  { intros id. unfold all_ids. cbn [with_cache s_cache s_non]. fold c. rewrite !cnt_app, (cnt_keep c id). lia. }
+  destruct s as [[sizes freed] live seen warned ptrs]. cbn [a_bk a_live a_seen a_warned a_ptrs fst snd] in *.
+  destruct (apply_destroy_nodes n_free c 0 (ids_of live) sizes freed) as [freed' [Hap [Hfr Hfn]]].
+  { intros nd b H1 H2. destruct (Fn nd H1 b) as [[G1 G2] _]; [apply in_app_iff; left; exact H2|]. auto. }
+  { intros id. fold (free_ids c). pose proof (r_nodup _ _ HR id) as K. rewrite Hcnt in K. lia. }
+  { intros id H. fold (free_ids c) in H. split; [apply (r_ids _ _ HR); apply Hgone_all; exact H|].
+    apply in_free_ids in H. destruct H as [nd [b [H1 [H2 [->| ->]]]]].
+    - apply (hdr_not_live _ _ b HR). apply in_all_blocks. left. exists nd. split; [exact H1 | apply in_app_iff; left; exact H2].
+    - apply (free_not_live _ _ nd _ HR H1). apply in_mems. exists b. auto. }
+  fold (free_ids c) in Hfr.
+  assert (Hseen' : forall id cl, In (id, cl) seen -> In id freed' \/ In id (ids_of live)).
+  { intros id cl H. destruct (r_seen _ _ HR id cl H) as [G|[G|G]]; [left; apply Hfr; tauto | | right; exact G].
+    left. apply Hfr. right. destruct G as [nd [G1 G2]]. apply in_mems in G2. destruct G2 as [b [G2 G3]].
+    apply in_free_ids. exists nd, b. auto. }
+  exists (mk_s (sizes, freed') live seen warned ptrs).
+  split; [|split; [|reflexivity]].
+  - unfold check_clear_cache, item_of. cbn [i_evs i_ret i_warn o_evs o_ret o_warn mk_out a_bk a_live a_seen a_warned a_ptrs].
+    rewrite Hap. cbn [snd].
+    replace (forallb (fun e : N * option N => memN (fst e) freed' || memN (fst e) (ids_of live)) seen) with true; [reflexivity|].
+    symmetry. apply forallb_forall. intros [id cl] H. simpl. apply orb_true_iff.
+    destruct (Hseen' id cl H) as [G|G]; [left | right]; apply memN_In; exact G.
+  - constructor; cbn [with_cache s_cache s_non s_warned s_next a_bk a_live a_seen a_warned a_ptrs mk_s fst snd].
+    + rewrite map_map. simpl. exact (r_sizes _ _ HR).
+    + exact (r_next _ _ HR).
+    + exact (r_warn _ _ HR).
+    + intros id. pose proof (r_nodup _ _ HR id) as K. rewrite Hcnt in K. lia.
+    + intros id H. apply cnt_In in H. pose proof (r_nodup _ _ HR id) as K. rewrite Hcnt in K.
+      destruct (r_ids _ _ HR id) as [G1 G2]; [apply cnt_In; rewrite Hcnt; lia|]. split; [exact G1|].
+      rewrite Hfr. intros [G|G]; [exact (G2 G)|]. apply cnt_In in G. lia.
+    + intros id H1 H2. destruct (r_out _ _ HR id H1 H2) as [G|G]; [|right; apply Hfr; tauto].
+      apply cnt_In in G. rewrite Hcnt in G.
+      destruct (Nat.eq_dec (cnt (free_ids c) id) 0) as [E|E]; [left; apply cnt_In; lia|].
+      right. apply Hfr. right. apply cnt_In. lia.
+    + intros id H. apply Hfr in H. destruct H as [H|H]; [exact (r_freed _ _ HR id H)|].
+      eapply all_ids_lt; eauto.
+    + apply Hfn. exact (r_fnd _ _ HR).
+    + destruct (r_zero _ _ HR) as [H1 H2]. split; [exact H1|]. rewrite Hfr. intros [G|G]; [exact (H2 G)|].
+      destruct (r_ids _ _ HR 0 (Hgone_all 0 G)) as [K _]. lia.
+    + apply Forall_forall. intros nd' H. apply in_map_iff in H. destruct H as [nd [<- H]].
+      intros b Hb. cbn [keep_used n_free n_used n_size] in *. apply (Fn nd H b). apply in_app_iff. right. exact Hb.
+    + exact (r_non _ _ HR).
+    + intros e He. destruct (r_live_a _ _ HR e He) as [H1 H2]. split; [exact H1|]. simpl in H2.
+      destruct (cls (snd e)) as [sz|]; [|exact H2].
+      destruct H2 as [nd [G1 [G2 G3]]]. exists (keep_used nd). split; [apply in_map; exact G1 | auto].
+    + exact (r_live_nd _ _ HR).
+    + intros nd' id H1 H2. apply in_map_iff in H1. destruct H1 as [nd [<- H1]].
+      exact (r_live_b _ _ HR nd id H1 H2).
+    + exact (r_live_c _ _ HR).
+    + intros id cl H. destruct (Hseen' id cl H); tauto.
+Qed.
+
+Lemma clear_all_eq : forall st,
+  clear_all st = ({| s_cache := map wipe (s_cache st); s_non := []; s_warned := s_warned st; s_next := s_next st |},
+                  mk_out (flat_map (fun nd => destroy_list (n_size nd) (n_free nd ++ n_used nd)) (s_cache st)
+                          ++ destroy_list 0 (s_non st)) None false).
+Proof.
+  intros. unfold clear_all. rewrite clear_nodes_spec. f_equal. f_equal. f_equal.
+  apply flat_map_ext. intros nd. simpl. unfold destroy_list. rewrite flat_map_app. reflexivity.
+Qed.
+
+Lemma all_ids_gone : forall st,
+  all_ids st = flat_map (fun nd => bids (n_free nd ++ n_used nd)) (s_cache st) ++ bids (s_non st).
+Proof.
+  intros. unfold all_ids. f_equal. apply flat_map_ext. intros nd. unfold node_ids. rewrite bids_app. reflexivity.
+Qed.
+
+Lemma sim_clear_all : forall st s, R st s -> (1 <= length (fst (a_bk s)))%nat ->
+  exists s', check_clear_all 1 s (item_of (snd (clear_all st))) = Some s' /\ R (fst (clear_all st)) s' /\ a_ptrs s' = a_ptrs s.
+Proof.
+  intros st s HR Hlen. rewrite clear_all_eq. cbn [fst snd].
+  set (c := s_cache st) in *.
+  pose proof (r_nodes _ _ HR) as Fn. rewrite Forall_forall in Fn.
+  pose proof (r_non _ _ HR) as Fo. rewrite Forall_forall in Fo.
+  pose proof (all_ids_gone st) as Hall. fold c in Hall.
+  destruct s as [[sizes freed] live seen warned ptrs]. cbn [a_bk a_live a_seen a_warned a_ptrs fst snd] in *.
+  destruct (apply_destroy_nodes (fun nd => n_free nd ++ n_used nd) c 0 [] sizes freed) as [f1 [A1 [A2 A3]]].
+  { intros nd b H1 H2. destruct (Fn nd H1 b H2) as [[G1 G2] _]. auto. }
+  { intros id. pose proof (r_nodup _ _ HR id) as K. rewrite Hall, cnt_app in K. lia. }
+  { intros id H. split; [|intros []]. apply (r_ids _ _ HR). rewrite Hall. apply in_app_iff. left. exact H. }
+  destruct (apply_destroy_list (s_non st) 0 [] sizes f1 0) as [f2 [B1 [B2 B3]]].
+  { intros b Hb. destruct (Fo b Hb) as [a [Ha [[G1 G2] _]]]. split; [exact G1|]. exists a. split; [exact G2|].
+    unfold size_ok. replace (cached_bound <? a) with true by (symmetry; apply N.ltb_lt; exact Ha). rewrite N.eqb_refl. apply orb_true_r. }
+  { intros id. pose proof (r_nodup _ _ HR id) as K. rewrite Hall, cnt_app in K. lia. }
+  { intros id H. split; [|intros []]. rewrite A2. intros [K|K].
+    - apply (r_ids _ _ HR id); [|exact K]. rewrite Hall. apply in_app_iff. right. exact H.
+    - pose proof (r_nodup _ _ HR id) as G. rewrite Hall, cnt_app in G. apply cnt_In in K. apply cnt_In in H. lia. }
+  assert (Hf2 : forall id, In id f2 <-> In id freed \/ In id (all_ids st)).
+  { intros id. rewrite B2, A2, Hall, in_app_iff. tauto. }
+  exists (mk_s (sizes, f2) [] seen warned ptrs).
+  split; [|split; [|reflexivity]].
+  - unfold check_clear_all, item_of. cbn [i_evs i_ret i_warn o_evs o_ret o_warn mk_out a_bk a_live a_seen a_warned a_ptrs].
+    rewrite apply_evs_app, A1, B1. cbn [fst snd].
+    replace (forallb (fun id : N => memN id f2) (range_from (N.of_nat 1) (length sizes - 1))) with true; [reflexivity|].
+    symmetry. apply forallb_forall. intros id H. apply range_from_In in H. apply memN_In. apply Hf2.
+    destruct (r_out _ _ HR id) as [G|G]; [lia | rewrite (r_next _ _ HR); simpl; lia | right; exact G | left; exact G].
+  - constructor; cbn [s_cache s_non s_warned s_next a_bk a_live a_seen a_warned a_ptrs mk_s fst snd].
+    + rewrite map_map. simpl. exact (r_sizes _ _ HR).
+    + exact (r_next _ _ HR).
+    + exact (r_warn _ _ HR).
+    + intros id. unfold all_ids. cbn [s_cache s_non]. rewrite wipe_no_ids. simpl. lia.
+    + intros id H. unfold all_ids in H. cbn [s_cache s_non] in H. rewrite wipe_no_ids in H. destruct H.
+    + intros id H1 H2. right. apply Hf2. destruct (r_out _ _ HR id H1 H2); tauto.
+    + intros id H. apply Hf2 in H. destruct H as [H|H]; [exact (r_freed _ _ HR id H) | eapply all_ids_lt; eauto].
+    + apply B3. apply A3. exact (r_fnd _ _ HR).
+    + destruct (r_zero _ _ HR) as [H1 H2]. split; [exact H1|]. rewrite Hf2. intros [G|G]; [exact (H2 G)|].
+      destruct (r_ids _ _ HR 0 G) as [K _]. lia.
+    + apply Forall_forall. intros nd' H. apply in_map_iff in H. destruct H as [nd [<- H]]. intros b Hb. destruct Hb.
+    + constructor.
+    + intros e [].
+    + constructor.
+    + intros nd' id H1 H2. apply in_map_iff in H1. destruct H1 as [nd [<- H1]]. destruct H2.
+    + intros id [].
+    + intros id cl H. left. apply Hf2. destruct (r_seen _ _ HR id cl H) as [G|[G|G]]; [tauto | right | right].
+      * apply free_in_all. exact G.
+      * eapply live_in_all; eauto.
+Qed.
+
+Lemma sim_destroy : forall st s, R st s -> check_destroy 1 s (item_of (snd (destroy st))) = true.
+Proof.
+  intros st s HR. destruct s as [[sizes freed] live seen warned ptrs]. destruct (r_zero _ _ HR) as [H1 H2].
+  cbn [a_bk fst snd] in *.
+  unfold check_destroy, destroy, item_of. cbn [i_evs i_ret i_warn o_evs o_ret o_warn mk_out a_bk snd apply_evs].
+  rewrite (apply_ef_ok 0 [] sizes freed 0 node_array_size node_array_size H1 H2); [|intros [] | apply size_ok_same].
+  reflexivity.
+Qed.
